@@ -32,6 +32,10 @@ class SimRng:
         self.draws = []
         self.seen = set()
 
+    def reseed_for_child(self, n):
+        """after a fork the operating system's RNG gives parent and child independent streams"""
+        self.rng = random.Random((self.rng.getrandbits(64) << 8) ^ (n + 1))
+
     def __call__(self, n, site):
         b = None
         for i, (s, h) in enumerate(self.script):
